@@ -232,6 +232,7 @@ def handle (j : Json) : Json :=
      | none => []) ++
     (if !(b.text = []) && b.text.all (fun c => c == ' ' || c == '\n' || c == '\t' || c == '\r') then ["body.blank"] else []) ++
     (if !excl.isEmpty then ["excl"] else []) ++
+    (if getStr j "entry" == "request" then ["entry.ValidateRequest"] else []) ++
     (if isNull j "shape" then [] else
       [match shape.body with | .stream => "req.stream" | .nilBody => "req.nilBody" | .noBody => "req.noBody"] ++
       (if shape.body = .stream && shape.contentLength = 0 && !(b0.text = []) then ["req.lengthUnknown.zero"] else []) ++
